@@ -19,7 +19,8 @@ def run(tier, seed):
                           dict(base, MaxDepth=DEPTH_B[0 if quick else 1]),
                           dict(base, MaxDepth=WALK), nsetup=ns, walk_len=ns + WALK,
                           nwalks=NWALKS[0 if quick else 1], seed=seed, clauses=CLAUSES,
-                          extra_B=[{"Scenario": '"c09b"', "MaxDepth": 2 if quick else 4}])
+                          extra_B=[{"Scenario": '"c09b"', "MaxDepth": 2 if quick else 4},
+                                   {"Scenario": '"c09c"', "MaxDepth": 3 if quick else 4}])
 
 
 def replay(path):
